@@ -113,6 +113,9 @@ type keyID struct {
 // serialised, as the sqlite backend does, so each message is handled from
 // re-loaded state and no pointer is shared between sessions.
 type SimStore struct {
+	// OwnerKeyNoChain: OwnerKey returns the signer without a certificate chain
+	// even for keys that have one.
+	OwnerKeyNoChain bool
 	mu       sync.Mutex
 	node     string
 	j        *Journal
@@ -713,6 +716,10 @@ func (s *SimStore) OwnerKey(ctx context.Context, t protocol.KeyType, bits int) (
 	e, ok := s.owner[normKey(t, bits)]
 	if !ok {
 		return nil, nil, fdo.ErrNotFound
+	}
+	if s.OwnerKeyNoChain {
+		// a key store provisioned with bare keys (as the example server does)
+		return e.Key, nil, nil
 	}
 	return e.Key, e.Chain, nil
 }
